@@ -101,6 +101,16 @@ int snoopy_cli_action_disable ()
         srcPosPtr++;
         copyLength--;
     }
+
+    // If other entries share the line with ours, only remove our entry (and the whitespace following it)
+    const char * afterEntryPtr = entryPtr + strlen(libsnoopySoPath);
+    while ((*afterEntryPtr == ' ') || (*afterEntryPtr == '\t')) {
+        afterEntryPtr++;
+    }
+    if ((*afterEntryPtr != '\0') && (*afterEntryPtr != '\n') && (*afterEntryPtr != '#')) {
+        srcPosPtr  = afterEntryPtr;
+        copyLength = (unsigned int) strlen(srcPosPtr);
+    }
     strncpy(destPosPtr, srcPosPtr, copyLength);
 
     destPosPtr += copyLength;
